@@ -54,8 +54,12 @@ namespace via
           for (auto i(0U); i < names.size(); ++i)
           {
             std::string name(names[i]);
-            if ((name[0] != ':') && (name != values[i]))
-              return Parameters();
+            if (name[0] != ':')
+            {
+              // a literal segment must match exactly and does not bind a parameter
+              if (name != values[i])
+                return Parameters();
+            }
             else
             {
               name.erase(0, 1); // ignore the ':'
